@@ -71,33 +71,94 @@ impl Det {
     /// The same program through the entry point a user runs: the text is written as the only file of a fresh
     /// directory and the category's real `analyze_dir` is asked for this one pattern.  Err = panicked / not listed once.
     pub fn run_via_dir(&self, src: &str) -> Result<BTreeSet<i32>, String> {
-        use std::sync::atomic::{AtomicUsize, Ordering};
-        static N: AtomicUsize = AtomicUsize::new(0);
-        let base = std::env::var("VERIF_SCRATCH").map(std::path::PathBuf::from).unwrap_or_else(|_| std::env::temp_dir());
-        let dir = base.join(format!("solstat-verif-entry-{}-{}", std::process::id(), N.fetch_add(1, Ordering::SeqCst)));
-        let _ = std::fs::remove_dir_all(&dir);
-        std::fs::create_dir_all(&dir).map_err(|e| e.to_string())?;
-        std::fs::write(dir.join("Only.sol"), src).map_err(|e| e.to_string())?;
-        let d = *self;
-        let path = dir.to_string_lossy().to_string();
-        let res = guarded(move || {
-            let found: Vec<(String, BTreeSet<i32>)> = match d {
-                Det::Opt(o) => optimizations::analyze_dir(&path, vec![o]).into_iter().filter(|(k, _)| *k == o).flat_map(|(_, v)| v).collect(),
-                Det::Vul(o) => vulnerabilities::analyze_dir(&path, vec![o]).into_iter().filter(|(k, _)| *k == o).flat_map(|(_, v)| v).collect(),
-                Det::Qa(o) => qa::analyze_dir(&path, vec![o]).into_iter().filter(|(k, _)| *k == o).flat_map(|(_, v)| v).collect(),
-            };
-            let mut lines = BTreeSet::new();
-            for (_file, ls) in found {
-                lines.extend(ls);
-            }
-            lines
+        // every pattern of the category is active in the run, as in a default run of the binary; the runs of the three
+        // categories over one text are kept until another text comes (the detectors of a text are asked one after another)
+        thread_local! {
+            static LAST: std::cell::RefCell<Option<(String, std::collections::BTreeMap<String, Result<BTreeSet<i32>, String>>)>> = std::cell::RefCell::new(None);
+        }
+        let name = self.name();
+        let hit = LAST.with(|l| match &*l.borrow() {
+            Some((text, map)) if text == src => map.get(&name).cloned(),
+            _ => None,
         });
-        let _ = std::fs::remove_dir_all(&dir);
-        res
+        if let Some(r) = hit {
+            return r;
+        }
+        let map = run_all_via_dir(src);
+        let r = map.get(&name).cloned().unwrap_or_else(|| Err("pattern not run".to_string()));
+        LAST.with(|l| *l.borrow_mut() = Some((src.to_string(), map)));
+        r
     }
     pub fn run_entry(&self, src: &str, via_dir: bool) -> Result<BTreeSet<i32>, String> {
         if via_dir { self.run_via_dir(src) } else { self.run(src) }
     }
+}
+
+/// The text as the only file of a fresh directory, analysed by the three real `analyze_dir` with ALL patterns of the
+/// category selected; per pattern the lines listed for that file (Err = that category's walk panicked).
+pub fn run_all_via_dir(src: &str) -> std::collections::BTreeMap<String, Result<BTreeSet<i32>, String>> {
+    use std::sync::atomic::{AtomicUsize, Ordering};
+    static N: AtomicUsize = AtomicUsize::new(0);
+    let mut out = std::collections::BTreeMap::new();
+    let base = std::env::var("VERIF_SCRATCH").map(std::path::PathBuf::from).unwrap_or_else(|_| std::env::temp_dir());
+    let dir = base.join(format!("solstat-verif-entry-{}-{}", std::process::id(), N.fetch_add(1, Ordering::SeqCst)));
+    let _ = std::fs::remove_dir_all(&dir);
+    if std::fs::create_dir_all(&dir).is_err() || std::fs::write(dir.join("Only.sol"), src).is_err() {
+        for d in all() {
+            out.insert(d.name(), Err("scratch directory".to_string()));
+        }
+        return out;
+    }
+    let path = dir.to_string_lossy().to_string();
+    let collect = |v: Vec<(String, BTreeSet<i32>)>| -> BTreeSet<i32> {
+        let mut lines = BTreeSet::new();
+        for (_file, ls) in v {
+            lines.extend(ls);
+        }
+        lines
+    };
+    let (p1, p2, p3) = (path.clone(), path.clone(), path.clone());
+    let opts = optimizations::get_all_optimizations();
+    match guarded(move || optimizations::analyze_dir(&p1, optimizations::get_all_optimizations())) {
+        Ok(m) => {
+            for o in opts {
+                out.insert(Det::Opt(o).name(), Ok(m.get(&o).cloned().map(&collect).unwrap_or_default()));
+            }
+        }
+        Err(e) => {
+            for o in opts {
+                out.insert(Det::Opt(o).name(), Err(e.clone()));
+            }
+        }
+    }
+    let vuls = vulnerabilities::get_all_vulnerabilities();
+    match guarded(move || vulnerabilities::analyze_dir(&p2, vulnerabilities::get_all_vulnerabilities())) {
+        Ok(m) => {
+            for o in vuls {
+                out.insert(Det::Vul(o).name(), Ok(m.get(&o).cloned().map(&collect).unwrap_or_default()));
+            }
+        }
+        Err(e) => {
+            for o in vuls {
+                out.insert(Det::Vul(o).name(), Err(e.clone()));
+            }
+        }
+    }
+    let qas = qa::get_all_qa();
+    match guarded(move || qa::analyze_dir(&p3, qa::get_all_qa())) {
+        Ok(m) => {
+            for o in qas {
+                out.insert(Det::Qa(o).name(), Ok(m.get(&o).cloned().map(&collect).unwrap_or_default()));
+            }
+        }
+        Err(e) => {
+            for o in qas {
+                out.insert(Det::Qa(o).name(), Err(e.clone()));
+            }
+        }
+    }
+    let _ = std::fs::remove_dir_all(&dir);
+    out
 }
 
 pub fn all() -> Vec<Det> {
